@@ -48,7 +48,11 @@ func modelMust(c *lib.Ctx, scs []scenario) ([][][]string, error) {
 			in.WriteString("must\n")
 		}
 	}
-	cmd := exec.Command(c.DriverPath(), "c19")
+	exe, derr := c.DriverExe("c19")
+	if derr != nil {
+		return nil, derr
+	}
+	cmd := exec.Command(exe, "c19")
 	cmd.Stdin = &in
 	var out, errb bytes.Buffer
 	cmd.Stdout, cmd.Stderr = &out, &errb
